@@ -37,6 +37,7 @@ const (
 	evRNext       = 38 // a = slot, b = 1 when a result channel was taken (slot lock taken and kept)
 	evRUnlock     = 39 // a = slot (still under the slot lock)
 	evRSigPre     = 40 // a = slot (no lock)
+	evWNextBusy   = 41 // a = slot: NextWriteCmd found the slot mutex busy (no lock)
 	// flowbuffer.go
 	evFTake  = 50 // a = cmd id, b = channel id: token received from f (recorded after the receive)
 	evFPutW  = 51 // a = cmd id, b = channel id: sent to w (atomic with the send)
